@@ -28,6 +28,109 @@ SMALL_BYTES = [39, 34, 92, 10, 97, 0, 13, 255, 110]
 ACTS = ['skip', 'skip', 'xfail', 'xfail', 'uxsuccess', 'failure', 'error', 'interrupt']
 
 
+def ctor_table():
+    """[(name in testtools.matchers.__all__, [factory, ...])]: every stock matcher with the legal shapes of the constructor
+    arguments that its __str__ / the describe() of its mismatches interpolate (tuple of length 0/1/2, list, set, frozenset,
+    str vs bytes, None, non-ASCII text ...).  APPEND ONLY: (row, variant) indices are part of recorded inputs.
+    Not listed on purpose, because /repo is known to fail on them (reported): dict matchers / KeysEqual with keys that
+    are not mutually orderable, MatchesRegex(<compiled pattern>), StartsWith/EndsWith(<tuple containing a newline>)."""
+    import doctest, re
+    import testtools.matchers as M
+    P = C6.Scratch.get().path
+    exc = ValueError(1)
+    shapes = [3, 'caf\xe9\n\x00', b'\xff\n', None, (), (1,), (1, 2), [1, 2], {'a': 1}, {1, 2}, frozenset([1])]
+
+    class Example:
+        a = (1, 2)
+        b = 'x'
+    T = [
+        ('Equals', [lambda x=x: M.Equals(x) for x in shapes]),
+        ('NotEquals', [lambda x=x: M.NotEquals(x) for x in shapes]),
+        ('Is', [lambda x=x: M.Is(x) for x in shapes]),
+        ('LessThan', [lambda x=x: M.LessThan(x) for x in shapes]),
+        ('GreaterThan', [lambda x=x: M.GreaterThan(x) for x in shapes]),
+        ('SameMembers', [lambda x=x: M.SameMembers(x) for x in ([], [1, (1, 2)], (), (1,), (1, 2), {1, 2}, 'ab', b'ab')]),
+        ('StartsWith', [lambda x=x: M.StartsWith(x) for x in ('', 'a', 'caf\xe9\n', b'a', b'\xff\n', ('a', 'b'), ())]),
+        ('EndsWith', [lambda x=x: M.EndsWith(x) for x in ('', 'a', 'caf\xe9\n', b'a', b'\xff\n', ('a', 'b'), ())]),
+        ('Contains', [lambda x=x: M.Contains(x) for x in shapes]),
+        ('ContainsAll', [lambda x=x: M.ContainsAll(x) for x in ([], [1, 2], (), (1,), ((1, 2), 'a'), {1}, frozenset([1, 2]), 'ab')]),
+        ('IsInstance', [lambda: M.IsInstance(), lambda: M.IsInstance(int), lambda: M.IsInstance(int, str), lambda: M.IsInstance(tuple)]),
+        ('HasLength', [lambda: M.HasLength(0), lambda: M.HasLength(2)]),
+        ('Always', [lambda: M.Always()]),
+        ('Never', [lambda: M.Never()]),
+        ('KeysEqual', [lambda: M.KeysEqual(), lambda: M.KeysEqual('a'), lambda: M.KeysEqual('a', 'b'), lambda: M.KeysEqual({'a': 1, 'b': 2}),
+                       lambda: M.KeysEqual((1, 2), (3,)), lambda: M.KeysEqual(1, 2), lambda: M.KeysEqual('caf\xe9')]),
+        ('MatchesAll', [lambda: M.MatchesAll(), lambda: M.MatchesAll(M.Equals((1, 2)), M.Never()),
+                        lambda: M.MatchesAll(M.Never(), M.Equals(()), first_only=True)]),
+        ('MatchesAny', [lambda: M.MatchesAny(), lambda: M.MatchesAny(M.Equals((1,)), M.Never())]),
+        ('Not', [lambda: M.Not(M.Always()), lambda: M.Not(M.Equals((1, 2))), lambda: M.Not(M.TarballContains(('a', 'b')))]),
+        ('Annotate', [lambda x=x: M.Annotate(x, M.Never()) for x in ('note', '', 'caf\xe9', b'\xff', (), (1,), (1, 2), None, ['a'])]),
+        ('AfterPreprocessing', [lambda: M.AfterPreprocessing(len, M.Equals(7)), lambda: M.AfterPreprocessing(str, M.Never(), annotate=False),
+                                lambda: M.AfterPreprocessing(lambda v: (v,), M.Equals(())), lambda: M.AfterPreprocessing(C6.Fn(ret=(1, 2)), M.Never())]),
+        ('AllMatch', [lambda: M.AllMatch(M.Equals((1, 2))), lambda: M.AllMatch(M.Never())]),
+        ('AnyMatch', [lambda: M.AnyMatch(M.Equals((1, 2))), lambda: M.AnyMatch(M.Never())]),
+        ('MatchesListwise', [lambda: M.MatchesListwise([]), lambda: M.MatchesListwise((M.Equals(1), M.Never())),
+                             lambda: M.MatchesListwise([M.Never()], first_only=True)]),
+        ('MatchesSetwise', [lambda: M.MatchesSetwise(), lambda: M.MatchesSetwise(M.Equals(1), M.Equals((1, 2))), lambda: M.MatchesSetwise(M.Never(), M.Never())]),
+        ('MatchesStructure', [lambda: M.MatchesStructure(), lambda: M.MatchesStructure(args=M.Equals((1,))), lambda: M.MatchesStructure.byEquality(a=(1, 2), b='x'),
+                              lambda: M.MatchesStructure.fromExample(Example, 'a', 'b'), lambda: M.MatchesStructure(a=M.Never(), b=M.Never()).update(b=None)]),
+        ('MatchesDict', [lambda: M.MatchesDict({}), lambda: M.MatchesDict({'a': M.Equals((1, 2)), 'caf\xe9': M.Never()}), lambda: M.MatchesDict({1: M.Never(), 2: M.Equals(())})]),
+        ('ContainsDict', [lambda: M.ContainsDict({}), lambda: M.ContainsDict({'a': M.Equals((1, 2)), 'z': M.Never()}), lambda: M.ContainsDict({(1, 2): M.Never()})]),
+        ('ContainedByDict', [lambda: M.ContainedByDict({}), lambda: M.ContainedByDict({'a': M.Never()}), lambda: M.ContainedByDict({b'k': M.Equals(1)})]),
+        ('MatchesException', [lambda: M.MatchesException(ValueError), lambda: M.MatchesException((KeyError, ValueError)), lambda: M.MatchesException(()),
+                              lambda: M.MatchesException(ValueError(1)), lambda: M.MatchesException(ValueError((1, 2), 'x')), lambda: M.MatchesException(ValueError()),
+                              lambda: M.MatchesException(ValueError, '2'), lambda: M.MatchesException(Exception, M.MatchesStructure(args=M.Equals((3,))))]),
+        ('Raises', [lambda: M.Raises(), lambda: M.Raises(M.MatchesException(KeyError)), lambda: M.Raises(M.Never())]),
+        ('raises', [lambda: M.raises(ValueError), lambda: M.raises((KeyError, TypeError)), lambda: M.raises(ValueError(2))]),
+        ('MatchesPredicate', [lambda: M.MatchesPredicate(C6._p_never, '%s is never ok'), lambda: M.MatchesPredicate(C6._p_falsy, 'caf\xe9 %r'),
+                              lambda: M.MatchesPredicate(C6._p_is_none, '%s %%')]),
+        ('MatchesPredicateWithParams', [lambda: M.MatchesPredicateWithParams(C6._pred_small, '{0} is not < {1}', 'Small')(3),
+                                        lambda: M.MatchesPredicateWithParams(lambda x, *a, **k: False, '{0} {1} {limit}')((1, 2), limit=())]),
+        ('MatchesRegex', [lambda: M.MatchesRegex('a+b'), lambda: M.MatchesRegex('caf\xe9\n\\\\', re.S | re.I), lambda: M.MatchesRegex(b'\xff\n')]),
+        ('DocTestMatches', [lambda: M.DocTestMatches('a...b', doctest.ELLIPSIS), lambda: M.DocTestMatches('caf\xe9\n'), lambda: M.DocTestMatches('')]),
+        ('PathExists', [lambda: M.PathExists()]),
+        ('DirExists', [lambda: M.DirExists()]),
+        ('FileExists', [lambda: M.FileExists()]),
+        ('DirContains', [lambda x=x: M.DirContains(x) for x in (['y', 'x'], ('x', 'y'), (), ('x',), {'x', 'y'}, frozenset())] +
+         [lambda: M.DirContains(matcher=M.Equals(('x', 'y'))), lambda: M.DirContains(matcher=M.Never())]),
+        ('FileContains', [lambda: M.FileContains('hello\n'), lambda: M.FileContains(''), lambda: M.FileContains('caf\xe9'), lambda: M.FileContains(b'abc'),
+                          lambda: M.FileContains(matcher=M.Equals(('a',))), lambda: M.FileContains(matcher=M.Never())]),
+        ('HasPermissions', [lambda: M.HasPermissions('0644'), lambda: M.HasPermissions('4755'), lambda: M.HasPermissions('1777'), lambda: M.HasPermissions(b'0644')]),
+        ('SamePath', [lambda: M.SamePath(P(2)), lambda: M.SamePath(P(4)), lambda: M.SamePath(P(2).encode()), lambda: M.SamePath('caf\xe9')]),
+        ('TarballContains', [lambda x=x: M.TarballContains(x) for x in (['other', 'file'], ('other', 'file'), (), ('file',), {'file'}, frozenset(['file', 'other']))]),
+        ('Warnings', [lambda: M.Warnings(), lambda: M.Warnings(M.HasLength(2)), lambda: M.Warnings(M.Never())]),
+        ('WarningMessage', [lambda: M.Warnings(M.AllMatch(M.WarningMessage(UserWarning))),
+                            lambda: M.Warnings(M.MatchesListwise([M.WarningMessage(DeprecationWarning, message=M.Equals('x'), filename=M.Never(), lineno=M.Equals((1,)), line=M.Never())]))]),
+        ('IsDeprecated', [lambda: M.IsDeprecated(M.Contains('old')), lambda: M.IsDeprecated(M.Never())]),
+    ]
+    return T
+
+
+def ctor_matchees():
+    """[(kind, factory)] matchees for the ctor inputs; kind 'int' is never given to filesystem matchers (open(<int>) adopts
+    that file descriptor).  APPEND ONLY."""
+    import sys
+    S = C6.Scratch.get()
+
+    def exc_info():
+        try:
+            raise ValueError((1, 2), 'x')
+        except ValueError:
+            return sys.exc_info()
+    obj = C6.OBJ[0](a=(1, 2), b='x', args=(1,))
+    V = [('int', lambda: 3), ('str', lambda: ''), ('str', lambda: 'ab'), ('str', lambda: 'caf\xe9\n\x00\''), ('bytes', lambda: b'\xff\n\x00'),
+         ('none', lambda: None), ('tuple', lambda: ()), ('tuple', lambda: (1,)), ('tuple', lambda: (1, 2)), ('tuple', lambda: ((1, 2), 'a')),
+         ('tuple', exc_info), ('list', lambda: []), ('list', lambda: [1, (1, 2)]), ('dict', lambda: {}), ('dict', lambda: {'a': (1, 2), 'b': 1}),
+         ('set', lambda: {1, 2}), ('set', lambda: frozenset()), ('obj', lambda: obj), ('exc', lambda: ValueError(1)),
+         ('fn', lambda: C6.Fn(ret=(1, 2))), ('fn', lambda: C6.Fn(ret=1)), ('fn', lambda: C6.Fn(ret=2)), ('fn', lambda: C6.Fn(exc=KeyError((1, 2))))]
+    V += [('path', lambda i=i: S.path(i)) for i in range(len(S.paths))]
+    V += [('tuple', lambda: (S.path(2), S.path(0))), ('bytes', lambda: S.path(2).encode()), ('dict', lambda: {1: 'x', 2: (3,)}), ('list', lambda: ['x', 'y'])]
+    return V
+
+
+PATH_ROWS = {'PathExists', 'DirExists', 'FileExists', 'DirContains', 'FileContains', 'HasPermissions', 'SamePath', 'TarballContains'}
+
+
 def render_name(n):
     base = {0: 'Failed expectation', 1: 'traceback'}.get(n[0], 'd%d' % n[0])
     return base if n[1] == 0 else '%s-%d' % (base, n[1])
@@ -44,14 +147,16 @@ def parse_name(s):
 
 class C07(Prop):
     id = 'C07'
-    budgets = {'quick': 80000, 'thorough': 1200000}
+    budgets = {'quick': 60000, 'thorough': 1200000}
     time_limit = {'quick': 40, 'thorough': 480}
-    rule = ('45% describe inputs (value-directed matcher expressions of C06 incl. MatchesPredicate leaves with well- and '
-            'ill-formed messages, x annotated x verbose), 35% text_repr inputs (str and bytes over an adversarial alphabet: '
+    rule = ('35% describe inputs (value-directed matcher expressions of C06 incl. MatchesPredicate leaves with well- and '
+            'ill-formed messages, x annotated x verbose), 20% ctor inputs (every stock matcher of __all__ built with each legal shape of the '
+            'constructor arguments its __str__/describe() interpolate - tuple of length 0/1/2, list, set, frozenset, str, bytes, None, '
+            'non-ASCII - on a pool of matchees incl. tuples, exc_info, paths with special mode bits), 30% text_repr inputs (str and bytes over an adversarial alphabet: '
             'quotes, backslash, newlines, controls, Latin-1, Z/C categories, astral, lone surrogate; multiline None/True/False), '
-            '20% assertThat/assert_that/expectThat programs (pre-existing detail names that collide with the mismatch details / '
+            '15% assertThat/assert_that/expectThat programs (pre-existing detail names that collide with the mismatch details / '
             '"Failed expectation"; after the call the test body, tearDown and 0-3 cleanups return / skip / raise an expected failure / an '
-            'unexpected success / a failure / an error / KeyboardInterrupt). thorough adds every str of length <= 4 over a 12-character alphabet and every bytes of '
+            'unexpected success / a failure / an error / KeyboardInterrupt). thorough adds every (constructor shape x matchee x annotated x verbose) combination and every str of length <= 4 over a 12-character alphabet and every bytes of '
             'length <= 4 over 9 bytes, x 3 multiline settings. non-trivial: describe = a mismatch was returned; text_repr = the '
             'text contains a quote, backslash, newline or non-printable; assert = a mismatch with details or existing details')
     assumptions = [
@@ -73,7 +178,9 @@ class C07(Prop):
                 'str(MismatchError) (verbose or not, annotated or not) succeed for every stock matcher expression of any depth and every value; a well-formed MatchesPredicate returns its Mismatch for every matchee, tuples included. '
                 'C07_assertThat_iff / C07_expectThat / C07_details_nonclobbering - assertThat and assert_that raise MismatchError iff match() returned a '
                 'mismatch; expectThat never raises and forces the failure: C07_expectThat_fails - after an expectThat mismatch the run is reported with addFailure whatever the rest of the body, tearDown and any number of cleanups do (return, skip, expected failure, unexpected success, failure, error), and with addError + re-raise when a stage raised KeyboardInterrupt - never success/skip/expected failure/unexpected success (selectExn_forced: the forced AssertionError is appended last and _select_exception prefers the last non-benign exception); details are attached under fresh names (pigeonhole proof for addDetailUniqueName). '
-                'Tied to the code by a differential check (real str()/describe()/MismatchError, text_repr vs ast.literal_eval, real TestCase runs).',
+                'Tied to the code by a differential check (real str()/describe()/MismatchError over matcher expressions and over every stock matcher built with each '
+                'legal shape of its constructor arguments (tuples of length 0/1/2, list, set, frozenset, str/bytes, None) on tuple and other matchees; '
+                'text_repr vs ast.literal_eval; real TestCase runs).',
         'note': 'no finding class left (MatchesPredicate formats a tuple matchee as one value since the fix); repr/pformat/%-formatting of values assumed total; describe() of opaque-leaf mismatches tested, not proved; pyRepr/pyEval are models of '
                 'CPython validated against repr/ast.literal_eval; the end-of-run outcome is a three-line model of RunTest',
         'technique': 'Lean 4: list-level proof of the text_repr round trip (hex codec, escape atoms, replace state machine, triple-quote loop), structural '
@@ -107,6 +214,17 @@ class C07(Prop):
                 rows.append((name, kind(type(make()))))
             except Exception:
                 pass
+
+        seen = {r[0] for r in rows}
+        for name, variants in ctor_table():
+            for make in variants:
+                try:
+                    cls = type(make())
+                except Exception:
+                    continue
+                if cls.__name__ not in seen:
+                    seen.add(cls.__name__)
+                    rows.append((cls.__name__, kind(cls)))
 
         def usable(obj, depth=0):
             if depth > 6:
@@ -289,8 +407,63 @@ class C07(Prop):
                 outcome = 'details-lost'
         return ['assert', obs['raised'], obs['continued'], obs['names'], obs['ff'], outcome, propagated]
 
+    # ----- constructor-argument shapes
+    def ctors(self):
+        if getattr(self, '_ctors', None) is None:
+            import testtools.matchers as M
+            self._ctors = ctor_table()
+            self._matchees = ctor_matchees()
+            self._ctor_seen = {}
+            self._ctor_missing = sorted(set(M.__all__) - {n for n, _ in self._ctors})
+        return self._ctors
+
+    def run_ctor(self, inp):
+        from testtools.matchers import Annotate, MismatchError
+        _, cls, row, variant, mi, annotated, verbose = inp
+        T = self.ctors()
+        if self._ctor_missing:
+            return ['unmodelled'] + self._ctor_missing
+        with warnings.catch_warnings():
+            warnings.simplefilter('ignore')
+            real = T[row][1][variant]()
+            if type(real).__name__ != cls:
+                return ['ctor-class-changed', type(real).__name__]
+            kind, make = self._matchees[mi]
+            value = make()
+            matcher = Annotate.if_message('msg \xe9' if annotated else '', real)
+            rs, _ = self.result(lambda: str(matcher), str)
+            rd = rg = re_ = 'ok'
+            refused = False
+            try:
+                mm = matcher.match(value)
+            except BaseException as e:
+                if isinstance(e, (KeyboardInterrupt, SystemExit)) and not getattr(e, 'verif_generated', False):
+                    raise
+                mm, refused = None, True   # match() may refuse a matchee outside the matcher's domain: nothing to describe then
+            self._ctor_seen[(row, variant, mi)] = 'refused' if refused else 'match' if mm is None else 'mismatch'
+            if mm is not None:
+                rd, _ = self.result(mm.describe, str)
+                rg, _ = self.result(mm.get_details, dict)
+                re_, _ = self.result(lambda: str(MismatchError(value, matcher, matcher.match(value), verbose)), str)
+        return ['ctor', rs, rd, rg, re_]
+
+    def gen_ctor(self, rng):
+        T = self.ctors()
+        while True:
+            row = rng.randrange(len(T))
+            variant = rng.randrange(len(T[row][1]))
+            mi = rng.randrange(len(self._matchees))
+            if T[row][0] in PATH_ROWS and self._matchees[mi][0] == 'int':
+                continue
+            if T[row][0] in PATH_ROWS and rng.random() < 0.5:
+                mi = rng.choice([i for i, (k, _) in enumerate(self._matchees) if k == 'path'])
+            cls = type(T[row][1][variant]()).__name__
+            return ['ctor', cls, row, variant, mi, rng.random() < 0.3, rng.random() < 0.5]
+
     def run_impl(self, inp):
         try:
+            if inp[0] == 'ctor':
+                return self.run_ctor(inp)
             if inp[0] == 'describe':
                 return self.run_describe(inp)
             if inp[0] == 'textrepr':
@@ -346,13 +519,26 @@ class C07(Prop):
 
     def gen(self, rng, tier):
         x = rng.random()
-        if x < 0.45:
+        if x < 0.35:
             return self.gen_describe(rng)
-        if x < 0.8:
+        if x < 0.65:
             return self.gen_text(rng)
+        if x < 0.85:
+            return self.gen_ctor(rng)
         return self.gen_assert(rng)
 
     def enumerate(self, tier):
+        # every constructor shape of every stock matcher x every matchee of the pool x annotated x verbose
+        T = self.ctors()
+        for row, (name, variants) in enumerate(T):
+            for variant, make in enumerate(variants):
+                cls = type(make()).__name__
+                for mi, (kind, _) in enumerate(self._matchees):
+                    if name in PATH_ROWS and kind == 'int':
+                        continue
+                    for a in (False, True):
+                        for vb in (False, True):
+                            yield ['ctor', cls, row, variant, mi, a, vb]
         for n in range(0, 5):
             for tup in itertools.product(SMALL, repeat=n):
                 s = [ord(c) for c in tup]
@@ -362,7 +548,7 @@ class C07(Prop):
                 for ml in (None, ['some', True], ['some', False]):
                     yield ['textrepr', True, ml, [], list(tup)]
         # every stock opaque leaf / predicate leaf at the root, on a few values
-        vals = [['s'] + [ord(c) for c in C6.Scratch.get().path(i)] for i in range(8)] + [['s', 97, 98], ['i', 3], ['fr', ['i', 1]], ['ei', 'ValueError', 1]]
+        vals = [['s'] + [ord(c) for c in C6.Scratch.get().path(i)] for i in range(len(C6.Scratch.get().paths))] + [['s', 97, 98], ['i', 3], ['fr', ['i', 1]], ['ei', 'ValueError', 1]]
         for k in range(len(P6.cat())):
             for v in vals:
                 if k in C6.OPQ_FOR['path'] and v[0] != 's':
@@ -376,6 +562,8 @@ class C07(Prop):
     def nontrivial(self, inp, trace):
         if not isinstance(trace, list) or not trace:
             return False
+        if inp[0] == 'ctor':
+            return getattr(self, '_ctor_seen', {}).get((inp[2], inp[3], inp[4])) == 'mismatch'
         if inp[0] == 'describe':
             return trace[0] == 'describe' and trace[2] == 'mismatch'
         if inp[0] == 'textrepr':
@@ -385,7 +573,15 @@ class C07(Prop):
     def features(self, inp, trace):
         f = ['kind:' + inp[0]]
         ok = isinstance(trace, list) and trace and trace[0] == inp[0]
-        if inp[0] == 'describe':
+        if inp[0] == 'ctor':
+            T = self.ctors()
+            f += ['ctor:' + T[inp[2]][0], 'ctor-matchee:' + self._matchees[inp[4]][0],
+                  'ctor-outcome:' + self._ctor_seen.get((inp[2], inp[3], inp[4]), '?')]
+            if ok:
+                for name, r in zip(('str', 'describe', 'details', 'errstr'), trace[1:5]):
+                    if r != 'ok':
+                        f.append('ctor-%s-fails:%s' % (name, r[1] if isinstance(r, list) else r))
+        elif inp[0] == 'describe':
             m = inp[1]
             f += ['root:' + m[0], 'annotated' if inp[3] else 'plain', 'verbose' if inp[4] else 'terse',
                   'value:' + (inp[2][0] if isinstance(inp[2], list) else 'none')]
@@ -421,6 +617,12 @@ class C07(Prop):
         return f
 
     def shrink(self, inp):
+        if inp[0] == 'ctor':
+            if inp[5]:
+                yield inp[:5] + [False, inp[6]]
+            if inp[6]:
+                yield inp[:6] + [False]
+            return
         if inp[0] == 'textrepr':
             s = inp[4]
             for i in range(len(s)):
